@@ -101,7 +101,14 @@ Proof.
     + (* cuts[0] invalid: findSNIAndECH runs *)
       pose proof (find_sni_ech_spec (W ++ p) Hbytes) as Hspec.
       destruct (Z.eqb_spec (sCls (find_sni_ech (W ++ p))) 1) as [_|Hn1].
-      { (* incomplete *) unfold sinv; cbn [fst buf wo scr send c0s c0e c1s c1e]. split; [assumption|]. split; [lia|].
+      { (* not parsable *)
+        destruct ((e =? 0) && message_complete (W ++ p)) eqn:Ecomp.
+        { (* a whole message that will never parse: scrambling off, nothing was sent yet *)
+          apply andb_prop in Ecomp as [Ee _]. apply Z.eqb_eq in Ee. subst e.
+          destruct Hm as [(_ & _ & Hw0 & _)|Hm]; [|lia].
+          unfold sinv; cbn [fst buf wo scr send c0s c0e c1s c1e]. split; [assumption|]. split; [lia|].
+          split; [subst w; reflexivity|]. intros i Hi. lia. }
+        unfold sinv; cbn [fst buf wo scr send c0s c0e c1s c1e]. split; [assumption|]. split; [lia|].
         split; [reflexivity|]. destruct Hm as [Hm|Hm]; [left; assumption|right].
         destruct Hm as (H4 & Hs & Hw & Hle & Hc0 & Hc1 & Hcov).
         rewrite hl3_app by lia. repeat split; try lia; assumption. }
@@ -464,6 +471,43 @@ Proof.
   assert (Hdiv : 0 <= sLen r / 2) by (apply Z.div_pos; lia).
   destruct (Z.eqb_spec (sPos r) (-1)) as [Hs1|Hs1]; destruct (Z.ltb_spec 0 (ePos r)) as [He1|He1]; cbv beta iota;
     match goal with |- context [if ?c then _ else _] => destruct c eqn:Ec end; apply Hd; rewrite ?Inv_val; lia.
+Qed.
+
+(** A stream still waiting for its ClientHello (scramble on, nothing popped, no cut computed)
+    that receives the write completing a WHOLE handshake message — parsable by findSNIAndECH or
+    not — either reports an error from Write or has HasData true: no complete message is silently
+    kept back. (Before the repair C09-scrambler-unparsable-complete-hello a complete message that
+    findSNIAndECH answers with io.ErrUnexpectedEOF — an SNI extension with an empty body, a byte
+    behind the message — was never sent and nothing said why.) *)
+Lemma complete_message_offered W a1 b1 p :
+  bytes_ok (W ++ p) -> message_complete (W ++ p) = true ->
+  snd (write (mkS W 0 true 0 Inv a1 Inv b1) p) = 2 \/
+  has_data (fst (write (mkS W 0 true 0 Inv a1 Inv b1) p)) = true.
+Proof.
+  intros Hb Hc.
+  destruct (find_sni_ech_cls (W ++ p)) as [H0|[H1|H2]].
+  - right. apply (complete_hello_offered W 0 a1 b1 p Hb H0).
+  - right. unfold write. cbn [buf wo scr send c0s c0e c1s c1e negb]. rewrite Z.eqb_refl. cbn [negb].
+    rewrite H1. cbn [Z.eqb Pos.eqb andb]. rewrite Hc. cbn [fst].
+    unfold has_data. cbn [buf wo scr send c0s c0e c1s c1e andb].
+    unfold message_complete in Hc. apply andb_prop in Hc as [Hc _]. apply Z.leb_le in Hc. apply Z.ltb_lt. lia.
+  - left. unfold write. cbn [buf wo scr send c0s c0e c1s c1e negb]. rewrite Z.eqb_refl. cbn [negb].
+    rewrite H2. reflexivity.
+Qed.
+
+(* the two witnesses of the audit: an SNI extension with an empty body; one byte behind a ClientHello *)
+Definition ch_sni_empty_ext : list Z :=
+  [1; 0; 0; 47; 3; 3] ++ repeat 7 32 ++ [0; 0; 2; 19; 1; 1; 0; 0; 4; 0; 0; 0; 0].
+
+Lemma unparsable_complete_now_sent :
+  sCls (find_sni_ech ch_sni_empty_ext) = 1 /\ sCls (find_sni_ech (ch_ech_no_sni ++ [22])) = 1 /\
+  (exists s W fs, run (init true) [] [] [SWrite ch_sni_empty_ext; SPop 1200] = Ok (s, W, fs)
+     /\ has_data s = false /\ fs = [(0, ch_sni_empty_ext)]) /\
+  (exists s W fs, run (init true) [] [] [SWrite (ch_ech_no_sni ++ [22]); SPop 1200] = Ok (s, W, fs)
+     /\ has_data s = false /\ fs = [(0, ch_ech_no_sni ++ [22])]).
+Proof.
+  split; [vm_compute; reflexivity|]. split; [vm_compute; reflexivity|].
+  split; do 3 eexists; (split; [vm_compute; reflexivity|split; vm_compute; reflexivity]).
 Qed.
 
 (** No wedge: in every reachable state, a pop with a budget of at least 11 bytes either yields a
